@@ -447,6 +447,23 @@ pub fn gen_c12(tier: &str, rng: &mut Rng, w: &mut dyn Write) {
             emit_range_views(w, &es);
         }
     }
+    // histories: a complete suited rank pair, then -- directly afterwards on the same thread -- the same eight cards
+    // re-paired into four offsuit combos with the same weight (same size, same cards, same weights, different range):
+    // an answer remembered from the previous range under a cheap fingerprint is wrong for the second one
+    for x in 0..13usize {
+        for y in (x + 1)..13 {
+            for wt in [WB, WA] {
+                let suited = pair_combos(x, y, true);
+                emit_range_ops(w, &suited.iter().map(|c| (*c, wt)).collect::<Vec<_>>());
+                let crossed: Vec<(usize, u32)> =
+                    [(0usize, 1usize), (1, 0), (2, 3), (3, 2)].iter().map(|(s1, s2)| (combo_code(4 * x + s1, 4 * y + s2), wt)).collect();
+                emit_range_ops(w, &crossed);
+                // the same two steps through the views alone (nothing else is computed in between)
+                emit_range_views(w, &suited.iter().map(|c| (*c, wt)).collect::<Vec<_>>());
+                emit_range_views(w, &crossed);
+            }
+        }
+    }
     // the combos (in iteration order) and the text of every rank pair, given in either rank order
     for r in 0..13 {
         writeln!(w, "rank_pair 0 {} 0", r).unwrap();
